@@ -117,7 +117,8 @@ pub(crate) fn validate(input: &DataType) -> Result<()> {
 
                 validate_dedicated_member_attrs(&member_attrs.parent_attrs, |x| x.container_ty.as_ref(), Some("parent"), member_span, &type_paths, &mut errors);
 
-                validate_parent_attrs(input.named_fields(), &member_attrs.parent_attrs, &data_type_attrs_by_kind, &mut errors);
+                let written_as: Vec<(&TraitAttrCore, Kind, TypeHint)> = data_type_attrs_by_kind.iter().map(|(x, kind)| (*x, *kind, x.type_hint)).collect();
+                validate_parent_attrs(input.named_fields(), &written_as, &member_attrs.parent_attrs, &data_type_attrs_by_kind, &mut errors);
 
                 validate_parent_member_type(f, &data_type_attrs_by_kind, &mut errors);
             },
@@ -137,9 +138,16 @@ pub(crate) fn validate(input: &DataType) -> Result<()> {
                 validate_dedicated_member_attrs(&member_attrs.pat_attrs, |x| x.container_ty.as_ref(), Some("pattern"), member_span, &type_paths, &mut errors);
                 validate_dedicated_member_attrs(&member_attrs.type_hint_attrs, |x| x.container_ty.as_ref(), Some("type_hint"), member_span, &type_paths, &mut errors);
 
+                // a variant's members are written in the shape its own #[type_hint(...)] gives it for the counterpart (whatever the enum-level instruction says),
+                // in the conversions for which the variant's body is written at all
+                let written_as: Vec<(&TraitAttrCore, Kind, TypeHint)> = trait_attrs_by_kind(attrs).into_iter()
+                    .filter(|(x, kind)| variant_has_body(v, x, kind))
+                    .map(|(x, kind)| (&x.core, kind, member_attrs.type_hint(&x.core.ty).map_or(TypeHint::Unspecified, |h| h.type_hint)))
+                    .collect();
+
                 for f in &v.fields {
                     bark_at_member_attr(&f.attrs.child_attrs, "child", |_| f.member.span(), &mut errors);
-                    validate_parent_attrs(v.named_fields, &f.attrs.parent_attrs, &data_type_attrs_by_kind, &mut errors);
+                    validate_parent_attrs(v.named_fields, &written_as, &f.attrs.parent_attrs, &data_type_attrs_by_kind, &mut errors);
                     validate_parent_member_type(f, &data_type_attrs_by_kind, &mut errors);
                     validate_dedicated_member_attrs(&f.attrs.attrs, |x| x.attr.container_ty.as_ref(), None, f.member.span(), &type_paths, &mut errors);
                     validate_dedicated_member_attrs(&f.attrs.ghost_attrs, |x| x.attr.container_ty.as_ref(), None, f.member.span(), &type_paths, &mut errors);
@@ -335,13 +343,23 @@ fn validate_dedicated_member_attrs<T, U: Fn(&T) -> Option<&TypePath>>(attrs: &Ve
     }
 }
 
-fn validate_parent_attrs(named_root_struct: bool, parent_attrs: &[ParentAttr], data_type_attrs_by_kind: &[(&TraitAttrCore, Kind)], errors: &mut Errors) {
+/// is the body of the variant (its members) written out in this conversion? Not when the variant has no arm of its own (a ghost variant),
+/// nor when the variant-level instruction gives the whole right side of the arm
+fn variant_has_body(v: &Variant, attr: &TraitAttr, kind: &Kind) -> bool {
+    let ghost = v.attrs.ghost(&attr.core.ty, kind);
+    if kind.is_from() && ghost.is_some() || !kind.is_from() && ghost.is_some_and(|x| x.action.is_none()) {
+        return false;
+    }
+    !v.attrs.applicable_attr(kind, attr.fallible, &attr.core.ty).is_some_and(|x| x.has_action())
+}
+
+fn validate_parent_attrs(named_root_struct: bool, written_as: &[(&TraitAttrCore, Kind, TypeHint)], parent_attrs: &[ParentAttr], data_type_attrs_by_kind: &[(&TraitAttrCore, Kind)], errors: &mut Errors) {
     // the nested fields of the #[parent(...)] list that is in force for a conversion are written with their names when the counterpart is struct-shaped:
     // a positional one needs an instruction, for this kind of conversion, that names the counterpart's field
-    for (attr, kind) in data_type_attrs_by_kind.iter().filter(|(x, kind)| !kind.is_from() && x.quick_return.is_none()) {
+    for (attr, kind, type_hint) in written_as.iter().filter(|(x, kind, _)| !kind.is_from() && x.quick_return.is_none()) {
         let in_force = parent_attrs.iter().find(|p| p.child_fields.is_some() && p.container_ty.as_ref() == Some(&attr.ty))
             .or_else(|| parent_attrs.iter().find(|p| p.child_fields.is_some() && p.container_ty.is_none()));
-        let struct_shaped = attr.type_hint == TypeHint::Struct || (attr.type_hint == TypeHint::Unspecified && named_root_struct);
+        let struct_shaped = *type_hint == TypeHint::Struct || (*type_hint == TypeHint::Unspecified && named_root_struct);
         if let (true, Some(fields)) = (struct_shaped, in_force.and_then(|p| p.child_fields.as_ref())) {
             for f in fields.iter().filter(|f| !f.named_fields() && f.get_for_kind(kind).map_or(true, |x| x.that_member.is_none())) {
                 let s = f.this_member.to_token_stream().to_string();
